@@ -27,7 +27,7 @@ ORACLES = [
     "websockets.server.ServerProtocol accepts the request (when importable and the Connection value contains Upgrade)",
 ]
 ASSUMPTIONS = [
-    "value of the default Origin header is don't-care (the statement only speaks about the options)",
+    "which origin the default Origin header names is don't-care (the statement only speaks about the options); only its syntax (scheme://host[:port], IPv6 bracketed) is judged",
     "custom header names/values are field-name tokens / visible ASCII without CR LF",
     "process-wide cookie jar cleared before each case (cookies are C20)",
 ]
@@ -107,6 +107,14 @@ def check_request(obs, data, parts, opts, drawn, tag):
             obs.fail(f"{tag}|origin-option", f"Origin {org}, option {opts['origin']!r}")
     elif len(org) > 1:
         obs.fail(f"{tag}|origin-duplicated", f"Origin {org}")
+    elif org:
+        # no option given: which origin the client names by default is its own business, but the field has to be
+        # a syntactically valid serialised origin (an IPv6 literal in brackets, at most one port)
+        import re
+
+        if not re.fullmatch(r"[A-Za-z][A-Za-z0-9+.-]*://(\[[0-9A-Fa-f:.]+\]|[^:/\[\]\s@]+)(:\d+)?", org[0]):
+            obs.fail(f"{tag}|default-origin-malformed", f"Origin {org[0]!r} is not scheme://host[:port]")
+
     sp = hv("Sec-WebSocket-Protocol")
     if opts.get("subprotocols"):
         if len(sp) != 1 or [t.strip() for t in sp[0].split(",")] != list(opts["subprotocols"]):
